@@ -117,6 +117,10 @@ struct VisitModel
             e.kind = EV_GROUP;
             e.tag = lv.groups[gi].tag;
             e.ticks = true;
+            e.ra = base;
+            e.ra.target = T_GROUP;
+            e.ra.member = (int)gi;
+            e.ra.sub = G_ADDR;
             e.has_addr = true;
             e.addr = (long long)g.start;
             // the group accessor was called with the plain cursor: it now sits at the end of the dimension header
@@ -148,6 +152,10 @@ struct VisitModel
             e.kind = EV_DATA;
             e.tag = lv.data[di].tag;
             e.ticks = true;
+            e.ra = base;
+            e.ra.target = T_DATA;
+            e.ra.member = (int)di;
+            e.ra.sub = D_ADDR;
             e.has_addr = true;
             e.addr = (long long)n.data_start[di];
             e.size = n.data[di].size();
@@ -300,6 +308,22 @@ inline Result exec_c19(const Plan& plan)
         fail("end-position", "after a complete visit the cursor is at " + std::to_string(full.cursor_off) + ", message end is " + std::to_string(N));
         return res;
     }
+    // ---- (a'') the same complete visit through the mutable view with a mutable cursor
+    {
+        Req mq = rq;
+        mq.stop_at = -1;
+        mq.arg = 1;
+        Res mr;
+        Outcome mo = call_driver(drv, mq, mr);
+        bool same = mo.kind == Out::DONE && mr.events.size() == full.events.size() && mr.cursor_off == full.cursor_off;
+        for(std::size_t i = 0; same && i < mr.events.size(); i++)
+            same = mr.events[i].kind == full.events[i].kind && mr.events[i].tag == full.events[i].tag && mr.events[i].bits == full.events[i].bits && mr.events[i].addr_off == full.events[i].addr_off;
+        if(!same)
+        {
+            fail("mutable-visit", "visiting through the mutable view with a mutable cursor differs from visiting through a const view with a const cursor");
+            return res;
+        }
+    }
     // ---- (a') visit_children called directly on group entries: the same events as the corresponding slice
     //          of the complete traversal, cursor at the end of the entry afterwards
     for(const auto& sub : vm.subs)
@@ -379,6 +403,24 @@ inline Result exec_c19(const Plan& plan)
     for(std::size_t i = 0; i < vm.ev.size(); i++)
     {
         const ExpEvent& e = vm.ev[i];
+        if(e.kind == EV_GROUP || e.kind == EV_DATA)
+        {
+            // get_by_tag<GroupTag / DataTag>(level) must hand out the same view as the named accessor
+            Req rg = e.ra;
+            rg.p = p;
+            rg.n = (std::size_t)N;
+            Res ta, tb;
+            Outcome oa = call_driver(drv, rg, ta);
+            rg.sub = GET_BY_TAG;
+            Outcome ob = call_driver(drv, rg, tb);
+            sim::stats().count("c19.by_tag_pairs");
+            if(oa.kind != ob.kind || ta.addr_off != tb.addr_off || ta.has_addr != tb.has_addr)
+            {
+                fail("get-by-tag", "get_by_tag<" + tagname(e.tag) + "> differs from the named accessor");
+                return res;
+            }
+            continue;
+        }
         if(!e.ticks || !(e.kind == EV_FIELD || e.kind == EV_TYPE || e.kind == EV_ENUM || e.kind == EV_SET || e.kind == EV_COMPOSITE)) continue;
         Req r1 = e.ra;
         r1.p = p;
